@@ -24,14 +24,17 @@ def _impl_range(args):
     for mask in range(lo, hi):
         b = np.array([(mask >> i) & 1 for i in range(n)], dtype=bool)
         for m in range(max_m + 1):
-            try:
-                r = check_min_burst_cycles(b.copy(), min_n_cycles=m)
-                if not isinstance(r, np.ndarray) or len(r) != n:
-                    out.append(-2)
-                else:
-                    out.append(int(sum((1 << i) for i in range(n) if bool(r[i]))))
-            except Exception:
-                out.append(-1)
+            wide = np.zeros(2 * n, dtype=bool)
+            wide[::2] = b
+            for arg in (b.copy(), np.ascontiguousarray(b[::-1])[::-1], wide[::2]):
+                try:
+                    r = check_min_burst_cycles(arg, min_n_cycles=m)
+                    if not isinstance(r, np.ndarray) or len(r) != n:
+                        out.append(-2)
+                    else:
+                        out.append(int(sum((1 << i) for i in range(n) if bool(r[i]))))
+                except Exception:
+                    out.append(-1)
     return out
 
 
@@ -60,7 +63,7 @@ def run_mc(ctx, max_n, max_m):
                    'MC_RunFilter')
     ctx.add_tlc(res, 'MC_RunFilter(N=%d,M=%d)' % (max_n, max_m))
     n_inputs = ((1 << (max_n + 1)) - 1) * (max_m + 1)
-    if len(tab) != n_inputs:
+    if len(tab) != 3 * n_inputs:
         raise tlc.TLCError('impl table size %d != %d' % (len(tab), n_inputs))
     import re
     m = re.search(r'Finished computing initial states: (\d+) distinct state', res['text'])
@@ -70,7 +73,7 @@ def run_mc(ctx, max_n, max_m):
         ctx.violation('C08.spec.' + res['violated'], 'specification-level invariant violated (design error): ' + res['error_trace'][:1500])
     dis = [p for p in res['prints'] if p[0] == 'DISAGREE']
     for d in dis[:20]:
-        _, idx, b, m_, want, got = d
+        _, idx, b, m_, want, got = d[:6]
         ctx.violation('C08.impl_disagrees', 'check_min_burst_cycles(%s, min_n_cycles=%d): spec mask %d, implementation %s'
                       % ([int(x) for x in b], m_, want, got), {'kind': 'ix', 'b': [bool(x) for x in b], 'm': m_})
     ctx.traces += n_inputs
